@@ -1346,6 +1346,12 @@ def check_partition_timer(ctx, R):
                     sym, other = (int(m_.group(1)), m_.group(2)) if m_ else ((int(m2.group(2)), m2.group(1)) if m2 else (None, None))
                     if sym is not None and other == value and sym in lens:
                         return po, sym
+                    # the len() spelled inside the test itself (second operand of an `and`: evaluated when the test is)
+                    if piece.replace(' ', '') in ('len(%s)==%s' % (BUF, value), '%s==len(%s)' % (value, BUF)):
+                        ci = next((i_ for i_, c2 in enumerate(r.conds) if c2[0] == c_), None)
+                        pa = next((j_ for j_, key in enumerate(r.order) if key == ('call', a)), -1)
+                        pc = next((j_ for j_, key in enumerate(r.order) if key == ('cond', ci)), -1)
+                        return po, (a + 1 if pc > pa else -1)
             return None, None
 
         def cfg(text):
